@@ -20,12 +20,18 @@ example :
     let r := runLoc (Loc.init 25) (List.replicate 60 (Ev.addLocal "a" false 0) ++ [.argTypes 60])
     r.1.bad = false ∧ r.1.max = 25 := by decide
 
-/-- a literal abandoned by error recovery inside another literal: the outer literal's end skips the abandoned pair,
-    the name cursor drifts but stays inside the table, cleanup resets everything -/
+/-- a literal abandoned by error recovery inside another literal: the outer literal's end skips the abandoned block,
+    releases what it left in the table and returns the pointers to where the outer literal started (repaired code) -/
 example :
     let evs := [Ev.addLocal "a" false 0, .addLocal "b" false 0, .enterLit, .addLocal "c" false 0, .addLocal "d" false 0,
                 .addLocal "e" false 0, .enterLit, .addLocal "i" false 0, .freeAll, .leaveLit 1, .freeAll, .cleanup]
     let p := runLI (Loc.init 25, Ids.init) evs
     p.1.bad = false ∧ p.2.bad = false ∧ p.2.live = [] ∧ p.2.refs "a" = 0 ∧ p.2.refs "c" = 0 := by decide
+
+example :
+    let evs := [Ev.addLocal "a" false 0, .addLocal "b" false 0, .enterLit, .addLocal "c" false 0, .addLocal "d" false 0,
+                .addLocal "e" false 0, .enterLit, .addLocal "i" false 0, .freeAll, .leaveLit 1]
+    let p := runLI (Loc.init 25, Ids.init) evs
+    p.1.lOff = 0 ∧ p.1.cur = 2 ∧ p.2.live = ["b", "a"] ∧ p.2.lnum "a" = 0 ∧ p.2.lnum "b" = 1 ∧ p.2.lnum "c" = -1 := by decide
 
 end NV.C02
